@@ -172,6 +172,7 @@ func (fr *Frame) cryptoInvoke(cc *ssa.CallCommon, recv Value, args []Value, pc *
 		ex.ctx.usedModels["cipher.AEAD.Seal/Open (deterministic AEAD: ciphertext is a function of key, nonce, associated data and plaintext; Open succeeds only on len >= 16)"]++
 		ex.oblige("nil", "invoke Seal", pos, pc, Neq(iv.Tag, BV(0, 16)), "AEAD is not nil")
 		dst, nonce, pt, ad := args[0].(SliceV), args[1].(SliceV), args[2].(SliceV), args[3].(SliceV)
+		ex.oblige("alias", "Seal dst", pos, pc, Eq(dst.Cap, dst.Len), "dst has no spare capacity (otherwise the result shares dst's backing array, which the model of Seal - a fresh result - does not cover)")
 		key := Select(ghostRefArr(st, "aead.key", SFP), ref)
 		nl := BVAdd(BVAdd(dst.Len, pt.Len), BV(16, 64))
 		out := ex.allocSlice(st, byteT, nl, nl, pc, "seal")
@@ -193,6 +194,7 @@ func (fr *Frame) cryptoInvoke(cc *ssa.CallCommon, recv Value, args []Value, pc *
 		ex.ctx.usedModels["cipher.AEAD.Seal/Open (deterministic AEAD: ciphertext is a function of key, nonce, associated data and plaintext; Open succeeds only on len >= 16)"]++
 		ex.oblige("nil", "invoke Open", pos, pc, Neq(iv.Tag, BV(0, 16)), "AEAD is not nil")
 		dst, nonce, ct, ad := args[0].(SliceV), args[1].(SliceV), args[2].(SliceV), args[3].(SliceV)
+		ex.oblige("alias", "Open dst", pos, pc, Eq(dst.Cap, dst.Len), "dst has no spare capacity (otherwise the result shares dst's backing array, which the model of Open - a fresh result - does not cover)")
 		key := Select(ghostRefArr(st, "aead.key", SFP), ref)
 		okB := Fresh("open.ok", SBool)
 		ex.assume(pc, Implies(okB, BVSle(BV(16, 64), ct.Len)))
